@@ -188,7 +188,15 @@ func cbstoreEngine(_ []string, in *bufio.Scanner, out *bufio.Writer) {
 					return "bad-state"
 				}
 				done := make(chan bool, 1)
-				go func() { s.top.RemoveCallback(f[1]); done <- true }()
+				go func() {
+					defer func() {
+						if rec := recover(); rec != nil {
+							done <- true
+						}
+					}()
+					s.top.RemoveCallback(f[1])
+					done <- true
+				}()
 				if c := s.cons[f[1]]; c != nil {
 					c.active = false
 				}
@@ -210,7 +218,15 @@ func cbstoreEngine(_ []string, in *bufio.Scanner, out *bufio.Writer) {
 						c.expected++
 					}
 				}
-				go func() { done <- s.top.Put(s.ctx, streamBeacon(r)) }()
+				go func() {
+					// a panic inside Put (on a real node: in the aggregator / sync goroutine, which nobody recovers) is an outcome, not the end of the run
+					defer func() {
+						if rec := recover(); rec != nil {
+							done <- fmt.Errorf("panic:%v", rec)
+						}
+					}()
+					done <- s.top.Put(s.ctx, streamBeacon(r))
+				}()
 				select {
 				case err := <-done:
 					if err != nil {
